@@ -59,6 +59,8 @@ class IoModel:
             s2.meta["fault"] = (op, info.get("path"), len(s2.trace) - 1)
             outs += ex.finish_call(s2, d, r, err(ioerr("Other", True)))
         st.event("io", op=op, outcome="ok", **info)
+        if self.disk is not None:
+            self.disk.apply(ex, st, op, info)
         outs += ex.finish_call(st, d, r, ok(okval) if fallible else okval)
         return outs
 
@@ -200,6 +202,17 @@ class IoModel:
         R("serde_json::from_str", m_settings_from_str)
         R("serde_json::to_string", lambda ex, st, fr, c, a, d, r: ok(VOpaque("bytes", ("settings-json", deref_all(st, a[0])))))
         R("pre_create_all_cas_directories", lambda ex, st, fr, c, a, d, r: io.call(ex, st, d, r, "mkdir", VUnit(), path=("cas", "65536 dirs")))
+        # ---- byte-slice algebra on opaque byte strings: ("slice", base, offset, length)
+        R(["slice::chunks_exact", "slice::chunks"], m_chunks)
+        R(["ChunksExact as Iterator::by_ref", "Chunks as Iterator::by_ref"], lambda ex, st, fr, c, a, d, r: a[0])
+        R(["ChunksExact as Iterator::next", "Chunks as Iterator::next", "&ChunksExact as Iterator::next", "&Chunks as Iterator::next"], m_chunks_next)
+        R(["ChunksExact::remainder"], m_chunks_remainder)
+        R(["slice::split_at"], m_split_at)
+        R(["slice::split_at_checked"], m_split_at_checked)
+        R(["slice::split_first"], m_split_first)
+        R(["slice::copy_from_slice"], m_copy_from_slice)
+        R(["slice::to_vec"], m_to_vec)
+        R(["num::from_le_bytes"], m_from_le_bytes)
         # ---- threads / channels
         R("mpsc::channel", lambda ex, st, fr, c, a, d, r: VStruct("tuple", [VOpaque("sender"), VOpaque("receiver")]))
         R("thread::spawn", lambda ex, st, fr, c, a, d, r: (st.event("spawn"), VOpaque("joinhandle"))[1])
@@ -299,6 +312,8 @@ def m_remove_file(io):
         if ex.feasible(st.pc, z3.Not(nf)):
             st.pc.append(z3.Not(nf))
             st.event("io", op="unlink", outcome="ok", path=path)
+            if io.disk is not None:
+                io.disk.apply(ex, st, "unlink", dict(path=path))
             outs += ex.finish_call(st, d, r, ok(VUnit()))
         return outs
     return f
@@ -468,6 +483,14 @@ def m_hash_from_bytes(ex, st, fr, c, a, d, r):
     v = a[0]
     if isinstance(v, VOpaque) and v.tag in ("digest-bytes", "digest"):
         key = "content-hash"
+        hashed = v.data
+        st.meta["finalized-over"] = hashed
+        if "hashed-content" in st.meta and hashed != st.meta["hashed-content"]:
+            # the hasher saw something else than the content: a different hash (no collisions assumed)
+            t = ex.fresh("other_hash")
+            if "content-hash" in st.meta:
+                st.pc.append(t != st.meta["content-hash"])
+            return VSym(t, "H")
         if key not in st.meta:
             t = ex.fresh("content_hash")
             st.meta[key] = t
@@ -496,6 +519,8 @@ def m_vec_deref_or_bytes(ex, st, fr, c, a, d, r):
 
 def m_len_or_bytes(ex, st, fr, c, a, d, r):
     v = deref_all(st, a[0])
+    if isinstance(v, VOpaque) and isinstance(v.data, tuple) and v.data and v.data[0] == "slice":
+        return VInt(v.data[3], "usize")
     if isinstance(v, VOpaque):
         key = ("len", id(v.data) if not isinstance(v.data, (str, int, tuple)) else str(v.data)[:80])
         lens = st.meta.setdefault("oplens", {})
@@ -624,3 +649,190 @@ def m_settings_from_str(ex, st, fr, c, a, d, r):
     v = VStruct("DbSettings", [VInt(ver, "u32"), VBool(st.meta["stored_precreated"]), VInt(st.meta["stored_N"], "u64")])
     outs += ex.finish_call(st, d, r, ok(v))
     return outs
+
+
+def as_slice(ex, st, v):
+    """(base, off, len) view of an opaque byte string"""
+    v = deref_all(st, v)
+    if isinstance(v, VOpaque) and v.tag == "bytes":
+        d = v.data
+        if isinstance(d, tuple) and d and d[0] == "slice":
+            return d[1], d[2], d[3]
+        ln = ex.models.ptr_metadata(ex, st, v).t
+        return d, z3.IntVal(0), ln
+    raise Unsupported(f"byte-slice operation on {v}")
+
+
+def mk_slice(base, off, ln):
+    return VOpaque("bytes", ("slice", base, z3.simplify(off), z3.simplify(ln)))
+
+
+def m_chunks(ex, st, fr, c, a, d, r):
+    base, off, ln = as_slice(ex, st, a[0])
+    exact = "chunks_exact" in c
+    return VStruct("ChunksExact" if exact else "Chunks", [VOpaque("sl", (base, off, ln)), a[1], VInt(0, "usize")])
+
+
+def m_chunks_next(ex, st, fr, c, a, d, r):
+    it = deref_all(st, a[0])
+    base, off, ln = it.fields[0].data
+    n, pos = it.fields[1].t, it.fields[2].t
+    exact = it.name == "ChunksExact"
+    cnt = st.meta.get("range_iters", 0)
+    outs = []
+    more = (pos + n <= ln) if exact else (pos < ln)
+    if ex.feasible(st.pc, more):
+        s2 = st.clone()
+        s2.pc.append(more)
+        if cnt >= ex.loop_bound:
+            s2.status, s2.note = "cut", f"loop bound {ex.loop_bound} reached iterating chunks"
+            outs.append(s2)
+        else:
+            s2.meta["range_iters"] = cnt + 1
+            take = n if exact else z3.If(ln - pos < n, ln - pos, n)
+            it2 = deref_all(s2, a[0])
+            it2.fields[2] = VInt(z3.simplify(pos + take), "usize")
+            outs += ex.finish_call(s2, d, r, some(VRef(s2.alloc(mk_slice(base, off + pos, take)))))
+    if ex.feasible(st.pc, z3.Not(more)):
+        st.pc.append(z3.Not(more))
+        outs += ex.finish_call(st, d, r, none())
+    return outs
+
+
+def m_chunks_remainder(ex, st, fr, c, a, d, r):
+    it = deref_all(st, a[0])
+    base, off, ln = it.fields[0].data
+    n = it.fields[1].t
+    # remainder = the last len % n bytes
+    q, rem = ex.fresh("q"), ex.fresh("r")
+    st.pc.append(z3.And(ln == q * n + rem, rem >= 0, rem < n, q >= 0))
+    return VRef(st.alloc(mk_slice(base, off + ln - rem, rem)))
+
+
+def m_split_at(ex, st, fr, c, a, d, r):
+    base, off, ln = as_slice(ex, st, a[0])
+    mid = a[1].t
+    outs = []
+    bad = mid > ln
+    if ex.feasible(st.pc, bad):
+        s2 = st.clone()
+        s2.pc.append(bad)
+        s2.status, s2.note = "panic", "split_at: mid > len"
+        outs.append(s2)
+    if ex.feasible(st.pc, z3.Not(bad)):
+        st.pc.append(z3.Not(bad))
+        outs += ex.finish_call(st, d, r, VStruct("tuple", [VRef(st.alloc(mk_slice(base, off, mid))),
+                                                          VRef(st.alloc(mk_slice(base, off + mid, ln - mid)))]))
+    return outs
+
+
+def m_split_at_checked(ex, st, fr, c, a, d, r):
+    base, off, ln = as_slice(ex, st, a[0])
+    mid = a[1].t
+    pair = VStruct("tuple", [VRef(st.alloc(mk_slice(base, off, mid))), VRef(st.alloc(mk_slice(base, off + mid, ln - mid)))])
+    from models import sym_option
+    return sym_option(mid <= ln, pair)
+
+
+def m_split_first(ex, st, fr, c, a, d, r):
+    base, off, ln = as_slice(ex, st, a[0])
+    byte = st.meta.setdefault("bytes_at", {})
+    key = (str(base), str(z3.simplify(off)))
+    if key not in byte:
+        byte[key] = ex.new_int(st, "u8", "byte").t
+    pair = VStruct("tuple", [VRef(st.alloc(VInt(byte[key], "u8"))), VRef(st.alloc(mk_slice(base, off + 1, ln - 1)))])
+    from models import sym_option
+    return sym_option(ln >= 1, pair)
+
+
+def m_copy_from_slice(ex, st, fr, c, a, d, r):
+    """dst.copy_from_slice(src): lengths must match (else panic); dst becomes 'the bytes of src'"""
+    dst = deref_all(st, a[0])
+    base, off, ln = as_slice(ex, st, a[1])
+    n = len(dst.elems) if isinstance(dst, VVec) else None
+    if n is None:
+        raise Unsupported("copy_from_slice into a non-array destination")
+    outs = []
+    bad = ln != n
+    if ex.feasible(st.pc, bad):
+        s2 = st.clone()
+        s2.pc.append(bad)
+        s2.status, s2.note = "panic", "copy_from_slice: source and destination lengths differ"
+        outs.append(s2)
+    if ex.feasible(st.pc, z3.Not(bad)):
+        st.pc.append(z3.Not(bad))
+        dd = deref_all(st, a[0])
+        dd.elems[:] = [VOpaque("byteof", (base, z3.simplify(off + i))) for i in range(n)]
+        dd.ety = ("bytes-of", base, z3.simplify(off))
+        outs += ex.finish_call(st, d, r, VUnit())
+    return outs
+
+
+def m_from_le_bytes(ex, st, fr, c, a, d, r):
+    m = re.search(r"<impl (\w+)>", c)
+    ty = m.group(1) if m else "u64"
+    arr = a[0]
+    key = ("le", ty, str(getattr(arr, "ety", id(arr))))
+    vals = st.meta.setdefault("decoded_ints", {})
+    if key not in vals:
+        vals[key] = ex.new_int(st, ty if ty in ("u8", "u16", "u32", "u64", "usize") else "u64", "decoded").t
+    return VInt(vals[key], ty)
+
+
+def m_to_vec(ex, st, fr, c, a, d, r):
+    base, off, ln = as_slice(ex, st, a[0])
+    st.event("alloc", what="to_vec", n=ln, where=fr.fn.name.split("::")[-1], avail=ln)
+    return mk_slice(base, off, ln)
+
+
+class BlobDisk:
+    """disk hook for interleaving exploration: the set of files under cas/ is a shared symbolic set
+    (st.meta['blobs']: hash -> Bool); rename-into-cas adds, unlink removes, open/read/unlink of a
+    missing blob report NotFound.  Everything else stays unconstrained."""
+
+    def missing(self, ex, st, path):
+        if path and path[0] == "cas" and "blobs" in st.meta:
+            return z3.Not(z3.Select(st.meta["blobs"], path[1]))
+        if path and path[0] == "staging":
+            return z3.BoolVal(False)
+        return None
+
+    def exists(self, ex, st, path):
+        if path and path[0] == "cas" and "blobs" in st.meta:
+            return z3.Select(st.meta["blobs"], path[1])
+        return None
+
+    def open_outcomes(self, ex, st, path, flags):
+        if path and path[0] == "cas" and "blobs" in st.meta:
+            p = z3.Select(st.meta["blobs"], path[1])
+            return [(p, "ok"), (z3.Not(p), "NotFound")]
+        return None
+
+    def read(self, ex, st, path, d, r):
+        if path and path[0] == "cas" and "blobs" in st.meta:
+            p = z3.Select(st.meta["blobs"], path[1])
+            outs = []
+            if ex.feasible(st.pc, z3.Not(p)):
+                s3 = st.clone()
+                s3.pc.append(z3.Not(p))
+                s3.event("io", op="read", outcome="NotFound", path=path)
+                outs += ex.finish_call(s3, d, r, err(ioerr("NotFound")))
+            if ex.feasible(st.pc, p):
+                st.pc.append(p)
+                st.event("io", op="read", outcome="ok", path=path)
+                outs += ex.finish_call(st, d, r, ok(VOpaque("filebytes", path)))
+            return outs
+        return None
+
+    def segments(self, ex, st):
+        return None
+
+    def apply(self, ex, st, op, info):
+        if "blobs" not in st.meta:
+            return
+        if op == "rename" and info.get("dst", ("",))[0] == "cas":
+            st.meta["blobs"] = z3.Store(st.meta["blobs"], info["dst"][1], z3.BoolVal(True))
+        if op == "rename" and info.get("path", ("",))[0] == "cas":
+            st.meta["blobs"] = z3.Store(st.meta["blobs"], info["path"][1], z3.BoolVal(False))
+        if op == "unlink" and info.get("path", ("",))[0] == "cas":
+            st.meta["blobs"] = z3.Store(st.meta["blobs"], info["path"][1], z3.BoolVal(False))
